@@ -151,15 +151,13 @@ fn execute(p: &Prog, sched_seed: u64, replay: Option<Vec<u8>>) -> Run {
                 let call = tick();
                 m.clear(&g);
                 let ret = tick();
-                // a clear that moves on to the next table may remove a key, see it re-inserted
-                // and remove it again: up to three optional removals per key; and a removal done
-                // in the successor table shows only once the old bin is forwarded, possibly after
-                // clear has returned (clear is not one of C01's per-key operations): no upper end
+                // a clear restarts in the new table whenever it meets a forwarding marker, so it
+                // may remove a key, see it re-inserted and remove it again once per table it walks
+                // (copies are added after the run, when the number of resizes is known); clear is not
+                // one of C01's per-key operations and its removals get no upper end here
                 let _ = ret;
                 for k in 0..pp.nkeys {
-                    for _ in 0..3 {
-                        evs.push(Ev { thread: t as u16, key: k, op: Op::MaybeRemove, call, ret: u64::MAX });
-                    }
+                    evs.push(Ev { thread: t as u16, key: k, op: Op::MaybeRemove, call, ret: u64::MAX });
                 }
                 continue;
             }
@@ -201,6 +199,12 @@ fn execute(p: &Prog, sched_seed: u64, replay: Option<Vec<u8>>) -> Run {
     let events = hook::events_take();
     let mut final_len = 0;
     let mut history = std::mem::take(&mut *hist.lock().unwrap());
+    // one more optional removal per resize of the run for every key a `clear` covers
+    let generations = events.iter().filter(|e| e.site == flurry::verif::EV_RESIZE_BEGIN).count();
+    let extra: Vec<Ev> = history.iter().filter(|e| matches!(e.op, Op::MaybeRemove)).copied().collect();
+    for _ in 0..generations {
+        history.extend(extra.iter().copied());
+    }
     let mut audit_failures = Vec::new();
     if res.verdict == Verdict::Completed && !res.watchdog {
         let g = map.guard();
